@@ -83,9 +83,11 @@ type Scn struct {
 	NPeers   int      `json:"n_peers"`
 	Silent   []string `json:"silent"`
 	TxMode   string   `json:"tx_mode"`
-	Phase    string   `json:"phase"` // idle | midsync | reorg | nopeers | notstarted | comp (see comp.go) | backlog
+	Phase    string   `json:"phase"` // idle | midsync | reorg | nopeers | notstarted | comp (see comp.go) | backlog | deafpeer
 	Comp     *Comp    `json:"comp,omitempty"`
-	Backlog  int      `json:"backlog,omitempty"` // phase backlog: filters queued for the batch writer right before Stop
+	DeafMode string   `json:"deaf_mode,omitempty"` // phase deafpeer: bcast | cfquery
+	Slack    int      `json:"slack,omitempty"`     // phase deafpeer: bytes the deaf peer's connection still takes
+	Backlog  int      `json:"backlog,omitempty"`   // phase backlog: filters queued for the batch writer right before Stop
 	DelayMs  int      `json:"delay_ms"`
 	Calls    []string `json:"calls"`
 	Persist  bool     `json:"persist"`
@@ -335,6 +337,33 @@ func runScn(s *Scn, work string) (fails []c.ImplFailure) {
 			fail("cannot queue filters: "+err.Error(), "setup")
 			return
 		}
+	case "deafpeer":
+		// The first peer keeps its connection open but stops READING (a hung
+		// process, a receive buffer that is never drained): after Slack more
+		// bytes every write of the client to it blocks, as on a socket whose
+		// send buffer is full. An all-peers query is then in flight when
+		// Stop is called: a transaction broadcast (bcast), or the filter-
+		// header handler's getcfheaders for a new block (cfquery). The query
+		// has to end by its own timeout although its message to that peer is
+		// never written.
+		nodes := nt.Nodes()
+		if nodes[0].StopReading(s.Slack) == 0 {
+			fail("the peer to be made deaf is not connected", "setup")
+			return
+		}
+		if s.DeafMode == "cfquery" {
+			cur = base.Fork(base.Tip(), 2, int64(s.ID), 0.3)
+			nodes[0].SetChain(cur, false)
+			for _, n := range nodes[1:] {
+				n.SetChain(cur, true)
+			}
+			ns.WaitUntil(5*time.Second, func() bool {
+				_, h, err := cl.CS.BlockHeaders.ChainTip()
+				return err == nil && int(h) == cur.Tip()
+			})
+		}
+		launch()
+		time.Sleep(time.Duration(150+s.DelayMs) * time.Millisecond)
 	case "reorg":
 		launch()
 		cur = base.Fork(base.Tip()-1-r.Intn(5), 8, int64(s.ID), 0.3)
@@ -462,6 +491,9 @@ func hangTag(s *Scn, o *Obs) string {
 	if s.Phase == "backlog" {
 		return "stop-hang-filter-backlog"
 	}
+	if s.Phase == "deafpeer" {
+		return "stop-hang-deaf-peer"
+	}
 	for i, k := range o.Calls {
 		if k.Kind == "getutxo" && !k.Pre {
 			_ = i
@@ -565,6 +597,11 @@ func corpus(seed, tip int64) []Scn {
 	// Stop with a backlog in the filter batch writer (seeded change C17-12)
 	b1, b2 := mk(14, "backlog", []string{}), mk(15, "backlog", []string{})
 	b1.Persist, b1.Backlog, b2.Persist, b2.Backlog = true, 400, true, 37
+	// Stop with an all-peers query in flight to a peer that has stopped reading
+	// (seeded change C17-16)
+	d1, d2, d3 := mk(16, "deafpeer", []string{}, "sendtx"), mk(17, "deafpeer", []string{}, "peers"), mk(18, "deafpeer", []string{}, "sendtx")
+	d1.DeafMode, d2.DeafMode, d3.DeafMode, d3.Slack = "bcast", "cfquery", "bcast", 30
+	cs = append(cs, d1, d2, d3)
 	cs = append(cs, mk(12, "idle", []string{"getheaders"}, "rescan"),
 		mk(13, "midsync", []string{"getheaders"}, "peers", "rescan"), b1, b2)
 	return cs
@@ -573,7 +610,7 @@ func corpus(seed, tip int64) []Scn {
 // ---------------------------------------------------------------------
 // Coq terms.
 
-var phaseCode = map[string]int64{"idle": 0, "midsync": 1, "reorg": 2, "nopeers": 3, "notstarted": 4, "comp": 5, "backlog": 6}
+var phaseCode = map[string]int64{"idle": 0, "midsync": 1, "reorg": 2, "nopeers": 3, "notstarted": 4, "comp": 5, "backlog": 6, "deafpeer": 7}
 var kindCode = map[string]int64{"getblock": 0, "getcfilter": 1, "getutxo": 2, "rescan": 3, "sendtx": 4, "peers": 5}
 var classCode = map[string]int64{"ok": 0, "shutdown": 1, "cancel": 2, "timeout": 3, "other": 4, "hung": 5}
 var silentBit = map[string]int64{"getdata": 1, "getcfilters": 2, "inv": 4, "getcfheaders": 8, "getheaders": 16, "getcfcheckpt": 32}
